@@ -172,6 +172,10 @@ func propC09(c *Ctx) {
 		{[]rune{0x101, 0x100}, []rune{0xfe, '"'}},
 		{[]rune{0xfffd}, []rune{0xfffe}},
 		{[]rune{1}, []rune{0x7f}},
+		// many special symbols: TAB and all ASCII punctuation other than the quotes as separators (31), and a longer list with
+		// non-ASCII separators and four quotes
+		{[]rune("\t!#$%&()*+,-./:;<=>?@[\\]^_{|}~"), []rune{'"', '\''}},
+		{append([]rune("\t!#$%&()*+,-./:;<=>?@[\\]^_{|}~ 0123456789"), 0xa0, 0xff, 0x100, 0x416, 0x2028, 0xfffd, 0x3b1, 0x3b2, 0x3b3, 0x3b4, 0x3b5, 0x3b6, 0x3b7, 0x3b8, 0x3b9, 0x3ba, 0x3bb, 0x3bc, 0x3bd, 0x3be, 0x3bf, 0x3c0, 0x3c1), []rune{'"', '\'', 0xab, 0xbb}},
 	}
 	eols := []string{"\n", "\r", "\r\n", "\n\r"}
 	n := 6000
